@@ -168,13 +168,28 @@ Inductive result (A : Type) := Ok (a : A) | Err (e : refusal).
 Arguments Ok {A}.
 Arguments Err {A}.
 
-(* prepareCorrectionOptions; the state is returned also on refusal: what json.Unmarshal wrote stays written *)
-Definition prepare (opts : list opt) (st : state) : state * result options :=
+(* a copy of each stamp object in a new object (what JSON cloning does; and what the proposed repair
+   fixes/C16-copy-header-stamps.diff does with the header's stamps) *)
+Fixpoint clone_stamps (st : state) (l : list addr) : state * list addr :=
+  match l with
+  | [] => (st, [])
+  | a :: r =>
+      let c := match hget (st_heap st) a with Some c => c | None => empty_stamp end in
+      let n := st_next st in
+      let (st', r') := clone_stamps (mkSt (hset (st_heap st) n c) (S n)) r in (st', n :: r')
+  end.
+
+(* prepareCorrectionOptions; the state is returned also on refusal: what json.Unmarshal wrote stays written.
+   copy_head = false is the code as it stands: o.Stamps = append(o.Stamps, o.Head.Stamps...) - the POINTERS;
+   copy_head = true is the code after fixes/C16-copy-header-stamps.diff: copies of the objects. *)
+Definition prepare (copy_head : bool) (opts : list opt) (st : state) : state * result options :=
   let o := fold_left apply_opt opts no_options in
-  let o1 := match o_head o with
-            | Some (s :: l) => mkOpts (o_head o) (o_type o) (o_issue o) (o_series o) (o_stamps o ++ s :: l)
-                                       (o_reason o) (o_ext o) (o_copy_tax o) (o_data o)
-            | _ => o
+  let '(st, o1) := match o_head o with
+            | Some (s :: l) =>
+                let '(st0, hs) := if copy_head then clone_stamps st (s :: l) else (st, s :: l) in
+                (st0, mkOpts (o_head o) (o_type o) (o_issue o) (o_series o) (o_stamps o ++ hs)
+                             (o_reason o) (o_ext o) (o_copy_tax o) (o_data o))
+            | _ => (st, o)
             end in
   match o_data o1 with
   | BadData => (st, Err BadOptionsData)
@@ -237,9 +252,9 @@ Section Correct.
           end
     end.
 
-  Definition correct (cd : cdef) (today : bytes) (opts : list opt) (st : state) (inv : invoice)
+  Definition correct (copy_head : bool) (cd : cdef) (today : bytes) (opts : list opt) (st : state) (inv : invoice)
     : state * result invoice :=
-    match prepare opts st with
+    match prepare copy_head opts st with
     | (st', Err e) => (st', Err e)
     | (st', Ok o) => (st', correct_with cd today (st_heap st') o inv)
     end.
@@ -257,14 +272,6 @@ Section Correct.
 
   (* schema.Object.Clone: marshal + unmarshal - the same value in new objects; the only pointers
      the model tracks inside a document are the stamps of its preceding references *)
-  Fixpoint clone_stamps (st : state) (l : list addr) : state * list addr :=
-    match l with
-    | [] => (st, [])
-    | a :: r =>
-        let c := match hget (st_heap st) a with Some c => c | None => empty_stamp end in
-        let n := st_next st in
-        let (st', r') := clone_stamps (mkSt (hset (st_heap st) n c) (S n)) r in (st', n :: r')
-    end.
   Fixpoint clone_refs (st : state) (l : list docref) : state * list docref :=
     match l with
     | [] => (st, [])
@@ -293,11 +300,11 @@ Section Correct.
     end.
 
   (* Envelope.Correct *)
-  Definition env_correct (regime : option (list cdef)) (addons : list (list cdef)) (today u_head u_doc : bytes)
+  Definition env_correct (copy_head : bool) (regime : option (list cdef)) (addons : list (list cdef)) (today u_head u_doc : bytes)
              (opts : list opt) (st : state) (e : envelope) : state * result envelope :=
     let opts' := match e_stamps e with [] => opts | _ => opts ++ [WithHead (e_stamps e)] end in
     let (st1, nd) := clone st (e_doc e) in
-    match correct (correction_def regime addons) today opts' st1 nd with
+    match correct copy_head (correction_def regime addons) today opts' st1 nd with
     | (st2, Err x) => (st2, Err x)
     | (st2, Ok nd') => (st2, envelop u_head u_doc nd')
     end.
